@@ -3,36 +3,21 @@
    AccountRead / StorageRead / StorageWrite / Balance-, Nonce-, CodeChange, Merge,
    ToEncodingObj) and State/BalEnc.v (BlockAccessList: Validate, RLP, Hash).
 
-   FULL STATEMENT of the first clause (bal_net_changes; NOT proved in this closed form,
-   checked on every run by the correspondence and by the Go-side dump-diff oracle):
-     for every block history, the list returned by Finalise for transaction i holds, for
-     every address a, BalanceChange/NonceChange/CodeChange(i, end value) iff the getter
-     value of a differs between the start and the end of transaction i; StorageWrite
-     (a,k,i,end value) iff GetState(a,k) differs; reads = touched slots minus written slots.
-   What IS proved (kernel-checked, for ALL transaction bodies: any sequence of journalled
-   calls, getters, Snapshots and RevertToSnapshots to any live id, nested to any depth):
-   * C15_stash_invariant — the C13 stash invariant: at every point of a transaction,
-     each stash of journal.mutations holds the pre-transaction value of its field when set,
-     and an unset stash means the field has its pre-transaction value; no journal entry for
-     an address means its object is unchanged and has no dirty storage.  This is what makes
-     reverted changes and A->B->A invisible.
-   * C15_bal_net_changes_partial — with that invariant, finaliseAmsterdam's loop records for
-     an address BalanceChange/NonceChange/CodeChange(index, v) iff the value v the account has
-     after the finalisation step (deleted = 0) differs from its pre-transaction value — in all
-     four finalisation branches (kept, EIP-158 deletion, self-destruct with and without
-     balance) — and leaves every other address of the list untouched.
-   * C15_bal_restore_not_recorded / C15_finalise_writes — a slot is in dirtyStorage at the
-     end of the body iff its value differs from the value at the start of the transaction;
-     stateObject.finalise records exactly the dirty slots as writes and removes exactly those
-     from the reads.
-   MISSING for the closed form: the lookup of the finalised state objects (map_imap in
-   Journal.finalise) that identifies "value after the finalisation step" with the getters of
-   the next state, the storage clause for deleted / self-destructed accounts (needs the
-   blank-storage guard), the reads clause as "touched minus written", and the RIPEMD-160
-   sticky touch (excluded by [body_ok], as in C13).
-   The remaining clauses (sorted, duplicate-free, Validate, RLP round trip, hash) are full. *)
+   C15_bal_net_changes is the property's first clause in closed form, for ONE transaction
+   started at a transaction boundary: SetTxContext, Prepare, any body (journalled calls,
+   getters, Snapshots and RevertToSnapshots to any live id, nested to any depth), Finalise.
+   It is stated on [pre_data] / [view_state], which ARE the getters GetBalance/GetNonce/GetCode/
+   GetState (C15_getters_view), of the state before SetTxContext and after Finalise.
+   C15_tx_boundary_init and C15_tx_boundary_finalise make it apply to every transaction of
+   every block (the boundary condition holds initially and is re-established by Finalise).
+   Guards ([body_ok], [fin_guard]): C13's API guards at every call; no RIPEMD-160 zero-value
+   touch (excluded as in C13: PARTIAL in that respect); a self-destructed object had nonce 0,
+   no code and a blank origin before the transaction; an account deleted at Finalise
+   (self-destruct or EIP-158) had no storage before the transaction.  The last guard is
+   necessary: C15_storage_unguarded_refuted (witness replayed on the real code, corpus/C15).
+   [None]/[RPanic]/[j_bad] = the Go code panics. *)
 From stdpp Require Import gmap sorting.
-From GV Require Import Lib.Bytes Rlp.Item State.Ref State.Journal State.JournalProofs State.BalEnc State.BalEncProofs State.Bal State.BalProofs.
+From GV Require Import Lib.Bytes Rlp.Item State.Ref State.Journal State.JournalProofs State.BalEnc State.BalEncProofs State.Bal State.BalProofs State.BalValidProofs.
 Local Open Scope N_scope.
 
 (* a fresh StateDB is at a transaction boundary *)
@@ -49,22 +34,50 @@ Theorem C15_stash_invariant : ∀ s0 b ops,
 Proof. exact stash_invariant. Qed.
 Print Assumptions C15_stash_invariant.
 
-(* the account-field part of bal_net_changes, at the level of finaliseAmsterdam's loop *)
-Theorem C15_bal_net_changes_partial : ∀ s0 b ops r idx L a,
-  tx_boundary s0 → core_eq (b_j b) s0 → body_ok b ops → rAms r = true →
-  let j := b_j (run_b b ops) in
-  (∀ o, j_objs j !! a = Some o → sd_guard s0 j a o) →
-  let R := fin_bal r idx j L in
-  match j_muts j !! a, j_objs j !! a with
-  | Some m, Some o =>
-      let d := match fin_obj r o with Some o' => o_data o' | None => acct0 end in
-      obal (R !! a) = upd_if idx (a_bal d) (a_bal (pre_data s0 a)) (obal (L !! a))
-      ∧ ononce (R !! a) = upd_if idx (a_nonce d) (a_nonce (pre_data s0 a)) (ononce (L !! a))
-      ∧ ocode (R !! a) = upd_if idx (a_code d) (a_code (pre_data s0 a)) (ocode (L !! a))
-  | _, _ => R !! a = L !! a
-  end.
-Proof. exact net_changes_fields. Qed.
-Print Assumptions C15_bal_net_changes_partial.
+(* Finalise re-establishes the boundary, so the theorem below applies to every transaction *)
+Theorem C15_tx_boundary_finalise : ∀ s0 j r, Q s0 j → wfc j → tx_boundary (finalise r j).
+Proof. exact tx_boundary_finalise. Qed.
+Print Assumptions C15_tx_boundary_finalise.
+
+(* the views used below are the getters of the StateDB *)
+Theorem C15_getters_view : ∀ j a k,
+  query_j j (QBalance a) = AN (a_bal (pre_data j a)) ∧ query_j j (QNonce a) = AN (a_nonce (pre_data j a))
+  ∧ query_j j (QCode a) = AN (a_code (pre_data j a)) ∧ query_j j (QState a k) = AN (view_state j a k).
+Proof. exact getters_view. Qed.
+Print Assumptions C15_getters_view.
+
+(* bal_net_changes (with bal_ignores_reverted and bal_restore_not_recorded as consequences:
+   the right-hand sides only mention the state before and after the transaction).
+   For every address a, the list R returned by Finalise holds
+     BalanceChange / NonceChange / CodeChange (idx, end value)  iff  the getter differs between
+       the start and the end of the transaction (nothing else: the maps are empty or singletons);
+     StorageWrite (a, k, idx, end value)  iff  GetState(a,k) differs;
+     k in StorageReads(a)  iff  (a,k) was passed to GetCommittedState during the body
+       ([touched]) and GetState(a,k) is unchanged  — reads = touched minus written. *)
+Theorem C15_bal_net_changes : ∀ b0 th ti idx r s c d l body,
+  tx_boundary (b_j b0) → rAms r = true →
+  let b1 := run_b b0 [BSetTx th ti idx; BPrepare r s c d l] in
+  body_ok b1 body →
+  let b2 := run_b b1 body in
+  (∀ a, fin_guard (b_j b0) (b_j b2) r a) →
+  let b3 := (step_b b2 (BOp (OFinalise r))).1 in
+  ∃ R, (step_b b2 (BOp (OFinalise r))).2 = BFin (Some R) ∧ b_acc b3 = None ∧
+  ∀ a,
+    let pre := pre_data (b_j b0) a in let post := pre_data (b_j b3) a in
+    obal (R !! a) = upd_set idx (a_bal post) (a_bal pre)
+    ∧ ononce (R !! a) = upd_set idx (a_nonce post) (a_nonce pre)
+    ∧ ocode (R !! a) = upd_set idx (a_code post) (a_code pre)
+    ∧ ∀ k, owrites (R !! a) !! k = st_write idx (view_state (b_j b3) a k) (view_state (b_j b0) a k)
+           ∧ (k ∈ oreads (R !! a) ↔ (a, k) ∈ touched b1 body ∧ view_state (b_j b3) a k = view_state (b_j b0) a k).
+Proof. exact bal_net_changes_tx. Qed.
+Print Assumptions C15_bal_net_changes.
+
+(* the blank-storage guard is necessary: an empty account WITH storage, touched, is deleted by
+   EIP-158; GetState goes from 5 to 0 and the returned list (which contains the account) has no
+   write for the slot.  [unguarded_check] evaluates exactly that on db_empty_with_storage. *)
+Theorem C15_storage_unguarded_refuted : unguarded_check = true.
+Proof. vm_compute. reflexivity. Qed.
+Print Assumptions C15_storage_unguarded_refuted.
 
 (* bal_restore_not_recorded (storage): after any body, a slot is dirty — and hence written
    by stateObject.finalise — iff its current value differs from its pre-transaction value *)
@@ -98,15 +111,57 @@ Theorem C15_encoding_sorted_unique : ∀ code_of (L : cbal),
 Proof. exact to_encoding_sorted. Qed.
 Print Assumptions C15_encoding_sorted_unique.
 
-(* validate_accepts_constructed, PARTIAL: Validate returns nil on every list that is
-   strictly ascending at every level, has no empty slot-change list, reads disjoint from
-   written slots, indices <= txcount+1, code <= 65536 bytes and item count within
-   gaslimit/2000 ([bal_valid]); that ToEncodingObj output satisfies the ORDER components is
-   C15_encoding_sorted_unique; the remaining components (non-empty write lists, disjointness,
-   bounds) for constructed lists are checked by the correspondence only *)
-Theorem C15_validate_accepts_constructed_partial : ∀ g t b, bal_valid g t b → validate g t b = 0.
-Proof. exact validate_ok. Qed.
-Print Assumptions C15_validate_accepts_constructed_partial.
+(* Merge of the per-transaction lists of a block: per address, and per index, other's entry if
+   it has one, else the local one (so entries of distinct indices are all preserved); reads are
+   unioned minus every slot written by either side.  Sortedness of the merged list's encoding is
+   C15_encoding_sorted_unique (it holds for ANY construction list). *)
+Theorem C15_merge_lookup : ∀ (B L : cbal) a,
+  cbal_merge B L !! a =
+    match B !! a, L !! a with
+    | Some x, Some y => Some (ca_merge x y)
+    | Some x, None => Some x
+    | None, o => o
+    end.
+Proof. exact merge_lookup. Qed.
+Print Assumptions C15_merge_lookup.
+
+Theorem C15_merge_fields : ∀ x y i,
+  ca_bal (ca_merge x y) !! i = match ca_bal y !! i with Some v => Some v | None => ca_bal x !! i end
+  ∧ ca_nonce (ca_merge x y) !! i = match ca_nonce y !! i with Some v => Some v | None => ca_nonce x !! i end
+  ∧ ca_code (ca_merge x y) !! i = match ca_code y !! i with Some v => Some v | None => ca_code x !! i end.
+Proof. exact ca_merge_fields. Qed.
+Print Assumptions C15_merge_fields.
+
+Theorem C15_merge_writes : ∀ x y k,
+  ca_writes (ca_merge x y) !! k =
+    match ca_writes y !! k, ca_writes x !! k with
+    | Some w, Some ex => Some (w ∪ ex)
+    | Some w, None => Some w
+    | None, o => o
+    end
+  ∧ (k ∈ ca_reads (ca_merge x y) ↔
+       (k ∈ ca_reads x ∧ ca_writes y !! k = None) ∨ (k ∈ ca_reads y ∧ ca_writes (ca_merge x y) !! k = None)).
+Proof. exact ca_merge_writes. Qed.
+Print Assumptions C15_merge_writes.
+
+(* validate_accepts_constructed: every list built from the empty list by AccountRead,
+   StorageRead, finaliseAmsterdam's recording loop with index <= txcount+1 and Merge
+   ([constructed]) passes Validate, under the stated size bounds: item count within
+   gaslimit / BALItemCost and code within MaxCodeSizeAmsterdam *)
+Theorem C15_validate_accepts_constructed : ∀ (code_of : N → list N),
+  (∀ c, lenN (code_of c) ≤ max_code_size) →
+  ∀ g t (L : cbal),
+  constructed (t + 1) L → item_count (to_encoding_obj code_of L) ≤ g / bal_item_cost →
+  validate g t (to_encoding_obj code_of L) = 0.
+Proof. exact validate_accepts_constructed. Qed.
+Print Assumptions C15_validate_accepts_constructed.
+
+(* ... and what the recording StateDB holds and hands out at Finalise is [constructed] *)
+Theorem C15_recorder_constructed : ∀ m b o,
+  acc_constructed m b → b_idx b ≤ m →
+  acc_constructed m (step_b b o).1 ∧ ∀ R, (step_b b o).2 = BFin (Some R) → constructed m R.
+Proof. exact step_b_constructed. Qed.
+Print Assumptions C15_recorder_constructed.
 
 (* and whatever Validate accepts is strictly ascending at every level *)
 Theorem C15_validate_sound : ∀ g t b,
